@@ -6,7 +6,41 @@ package main
 import (
 	"errors"
 	"io"
+
+	"github.com/tuneinsight/lattigo/v6/utils/buffer"
 )
+
+// watchReader behaves exactly like the *buffer.Buffer it wraps (same Size/Peek/Discard/Read results) and
+// trips when the decoder keeps calling it without ever obtaining or consuming a byte: that is a decoder
+// looping/recursing forever on exhausted input. With a real buffer.Buffer (UnmarshalBinary builds one
+// internally) such a loop ends in "fatal error: stack overflow", which no harness can survive or attribute;
+// the tripwire turns it into an ordinary observation. 256 consecutive empty calls are far beyond anything a
+// terminating decoder does (each field read obtains or discards at least one byte).
+type watchReader struct {
+	b    *buffer.Buffer
+	idle int
+}
+
+type noProgress struct{}
+
+func (noProgress) String() string {
+	return "decoder made 256 consecutive reader calls that neither returned nor consumed a byte (unbounded loop/recursion on exhausted input)"
+}
+
+func (w *watchReader) note(n int) {
+	if n > 0 {
+		w.idle = 0
+		return
+	}
+	if w.idle++; w.idle > 256 {
+		panic(noProgress{})
+	}
+}
+
+func (w *watchReader) Read(p []byte) (int, error) { n, err := w.b.Read(p); w.note(n); return n, err }
+func (w *watchReader) Size() int                  { return w.b.Size() }
+func (w *watchReader) Peek(n int) ([]byte, error) { s, err := w.b.Peek(n); w.note(len(s)); return s, err }
+func (w *watchReader) Discard(n int) (int, error) { k, err := w.b.Discard(n); w.note(k); return k, err }
 
 // ---------------------------------------------------------------------------------------------
 // readers
